@@ -214,17 +214,17 @@ Definition need (e : env) (rs : nat) (s : st) : nat :=
   | None => 1
   end.
 
-Definition landed (e : env) (s0 s' : st) : Prop :=
+Definition landed (e : env) (rs : nat) (s0 s' : st) : Prop :=
   alive s' = false \/
-  (exists c, cur s' = Some c /\ In (c_srv c) (try_list e)) \/
-  (cur s' = cur s0 /\ cur s0 <> None).
+  (alive s' = true /\ exists c, cur s' = Some c /\ In (c_srv c) (try_list e)) \/
+  (s' = s0 /\ cur s0 <> None /\ srv_is (cur s0) rs = false).
 
 Lemma set_flight_none_id s : flight s = None -> set_flight None s = s.
 Proof. destruct s; cbn; intros ->; reflexivity. Qed.
 
 Lemma recover_quiet e : forall f rs s,
   pre_rec rs s -> need e rs s <= f ->
-  quiet (recover f e rs s) /\ landed e s (recover f e rs s).
+  quiet (recover f e rs s) /\ landed e rs s (recover f e rs s).
 Proof.
   induction f as [|f IH]; intros rs s (Hfl & Hfr & Hal & Hpre) Hneed.
   { exfalso. unfold need in Hneed.
@@ -238,7 +238,7 @@ Proof.
     destruct (cur s) as [c|] eqn:Ec; [|congruence].
     cbn in Hne. rewrite Hne.
     rewrite set_flight_none_id by assumption. split; [assumption|].
-    right. right. rewrite Ec. split; [reflexivity|discriminate].
+    right. right. rewrite Ec. split; [reflexivity|]. split; [discriminate|exact Hne].
   - assert (Hk : match cur s with None => true | Some c => c_srv c =? rs end = true).
     { destruct Hcur as [->|H]; [reflexivity|]. destruct (cur s); [exact H|reflexivity]. }
     rewrite Hk.
@@ -247,20 +247,20 @@ Proof.
       set (s2 := set_cur None (set_flight None (set_tryi i s))).
       assert (Hq2 : quiet s2).
       { destruct s as [cu fl li op ti al at_]. cbn in *. subst. unfold s2, quiet, fresh. cbn.
-        repeat split; auto. intros c []. }
+        repeat split; auto; try (intros c []). }
       assert (Hcs : check_server s2 t = None) by reflexivity.
       rewrite Hcs.
       assert (Hal2 : alive s2 = true) by (destruct s; exact Hal).
       pose proof (attempt_cases e t s2 Hq2 Hal2) as Hatt.
       destruct (attempt e t s2) as [s3 o] eqn:Ea. cbn [fst snd] in Hatt.
       destruct Hatt as (Hq3 & Hal3 & [(Ho & c & Hc3 & Hct) | (Ho & Hcur3 & _)]).
-      * subst o. split; [assumption|]. right. left. exists c. split; [assumption|].
+      * subst o. split; [assumption|]. right. left. split; [congruence|]. exists c. split; [assumption|].
         subst t. eapply nth_error_In; eassumption.
       * assert (Hc3 : cur s3 = None) by (destruct Hcur3 as [H|H]; [rewrite H; reflexivity|exact H]).
         assert (Ht3 : tryi s3 = i).
         { pose proof (attempt_fail_tryi e t s2 eq_refl) as H. rewrite Ea in H. cbn [fst snd] in H.
           rewrite H by assumption. destruct s; reflexivity. }
-        assert (Hrec : quiet (recover f e t s3) /\ landed e s3 (recover f e t s3)).
+        assert (Hrec : quiet (recover f e t s3) /\ landed e t s3 (recover f e t s3)).
         { apply IH.
           - destruct Hq3 as (A & B & C & D & E). repeat split; auto; [congruence|].
             right. rewrite Hc3 in B, C. cbn in B, C. auto.
@@ -273,7 +273,7 @@ Proof.
               * lia.
             + lia. }
         destruct o; [congruence| |]; (split; [apply Hrec|]);
-          destruct Hrec as (_ & [H|[H|(H1 & H2)]]); try (left; exact H); try (right; left; exact H);
+          destruct Hrec as (_ & [H|[H|(H1 & H2 & _)]]); try (left; exact H); try (right; left; exact H);
           congruence.
     + apply next_none in En. subst s1.
       assert (Hk2 : quiet (kill (set_cur None (set_flight None s))) /\
@@ -285,4 +285,676 @@ Qed.
 Lemma need_le_fuel e rs s : need e rs s <= fuel_of e.
 Proof.
   unfold need, fuel_of. destruct (nth_error _ _) as [y|]; [destruct (y =? rs)|]; lia.
+Qed.
+
+(* ----- operations ----- *)
+
+Lemma check_none_not_cur s t : check_server s t = None -> srv_is (cur s) t = false.
+Proof.
+  unfold check_server. destruct (flight s); [discriminate|].
+  destruct (cur s) as [c|]; [|reflexivity]. cbn. destruct (c_srv c =? t); [discriminate|reflexivity].
+Qed.
+
+Lemma connect_raw_quiet strict e t s :
+  quiet s -> alive s = true ->
+  quiet (fst (connect_raw strict e t s)) /\
+  (snd (connect_raw strict e t s) = RSuccess -> srv_is (cur (fst (connect_raw strict e t s))) t = true).
+Proof.
+  intros Hq Hal. unfold connect_raw.
+  destruct (check_server s t) as [r|] eqn:Ec.
+  - assert (Hs : (if strict then s else set_flight None s) = s)
+      by (destruct strict; [reflexivity|apply set_flight_none_id, Hq]).
+    cbn [fst snd]. rewrite Hs. split; [assumption|].
+    intros ->. unfold check_server in Ec. destruct (flight s); [discriminate|].
+    destruct (cur s) as [c|]; [|discriminate]. destruct (c_srv c =? t); discriminate.
+  - pose proof (attempt_cases e t s Hq Hal) as H.
+    destruct (attempt e t s) as [s1 o]. cbn [fst snd] in *.
+    destruct H as (Hq1 & _ & [(-> & c & Hc & Hct) | (Ho & _)]).
+    + split; [assumption|]. intros _. rewrite Hc. cbn. subst t. apply Nat.eqb_refl.
+    + split; [assumption|]. destruct o; cbn; congruence.
+Qed.
+
+Lemma connect_ind_quiet e t s :
+  quiet s -> alive s = true -> quiet (fst (connect_ind e t s)).
+Proof.
+  intros Hq Hal. unfold connect_ind.
+  destruct (check_server s t) as [r|] eqn:Ec; [exact Hq|].
+  pose proof (attempt_cases e t s Hq Hal) as H.
+  destruct (attempt e t s) as [s1 o]. cbn [fst snd] in *.
+  destruct H as (Hq1 & Hal1 & [(-> & _) | (Ho & Hcur & _)]); [exact Hq1|].
+  assert (Hpre : pre_rec t s1).
+  { pose proof Hq1 as (A & B & C & D & E).
+    split; [exact A|]. split; [exact E|]. split; [congruence|].
+    destruct (cur s1) as [c|] eqn:Ec1.
+    - left. split; [exact Hq1|]. split; [|discriminate].
+      destruct Hcur as [H|H]; [|discriminate].
+      pose proof (check_none_not_cur s t Ec) as Hn. rewrite <- H in Hn. exact Hn.
+    - right. cbn in B, C. auto. }
+  destruct o; [congruence| |]; cbn [fst];
+    apply (recover_quiet e (fuel_of e) t s1 Hpre (need_le_fuel e t s1)).
+Qed.
+
+Lemma login_quiet e : quiet (login e init_st).
+Proof.
+  unfold login.
+  destruct (next_server_to_try e init_st None) as [s1 [t|]] eqn:En.
+  - destruct (next_spec _ _ _ _ _ En) as (i & -> & _).
+    apply connect_ind_quiet; [|reflexivity].
+    unfold quiet, fresh. cbn. repeat split; auto; try (intros c []).
+  - apply next_none in En. subst s1.
+    apply (kill_quiet init_st); try reflexivity. intros c [].
+Qed.
+
+Lemma run_inner_refused e c : forall inner s,
+  flight s = Some c ->
+  run_inner true e inner s = (s, map (fun x : bool * nat => if fst x then RFalse else RInProgress) inner).
+Proof.
+  induction inner as [|[ind t] r IH]; intros s Hf; [reflexivity|].
+  cbn [run_inner]. unfold connect_ind, connect_raw, check_server. rewrite Hf.
+  destruct ind; cbn [fst]; rewrite (IH s Hf); reflexivity.
+Qed.
+
+(* every operation of the specification leads from a quiescent state to a quiescent state *)
+Lemma step_spec_quiet e o s : quiet s -> quiet (fst (step true e o s)).
+Proof.
+  intros Hq. unfold step. destruct (alive s) eqn:Hal; cbn [negb]; [|exact Hq].
+  destruct o as [t|t| | |z inner].
+  - pose proof (connect_raw_quiet true e t s Hq Hal) as [H _].
+    destruct (connect_raw true e t s). exact H.
+  - pose proof (connect_ind_quiet e t s Hq Hal) as H.
+    destruct (connect_ind e t s). exact H.
+  - destruct (cur s) as [c|] eqn:Ec; [|exact Hq]. cbn [fst].
+    apply recover_quiet; [|apply need_le_fuel].
+    destruct s as [cu fl li op ti al at_]. destruct Hq as (A & B & C & D & E). cbn in *. subst.
+    unfold pre_rec, close_joined, fresh. cbn [cur flight lists opened tryi alive attempts olist map].
+    rewrite remove_conn_single, remove_nat_single.
+    split; [reflexivity|]. split; [intros x []|]. split; [reflexivity|].
+    right. split; [reflexivity|]. split; [reflexivity|]. right. cbn. apply Nat.eqb_refl.
+  - destruct (cur s) as [c|] eqn:Ec; [|exact Hq]. cbn [fst].
+    apply recover_quiet; [|apply need_le_fuel].
+    destruct s as [cu fl li op ti al at_]. destruct Hq as (A & B & C & D & E). cbn in *. subst.
+    unfold pre_rec, close_joined, fresh. cbn [cur flight lists opened tryi alive attempts olist map].
+    rewrite remove_conn_single, remove_nat_single.
+    split; [reflexivity|]. split; [intros x []|]. split; [reflexivity|].
+    right. split; [reflexivity|]. split; [reflexivity|]. right. cbn. apply Nat.eqb_refl.
+  - destruct (check_server s z) as [r|] eqn:Ec; [exact Hq|].
+    unfold open_conn.
+    set (c := mkConn z (nth z (attempts s) 0)).
+    set (s1 := mkSt _ _ _ _ _ _ _).
+    rewrite (run_inner_refused e c inner (set_flight (Some c) s1) eq_refl). cbn [fst].
+    destruct s as [cu fl li op ti al at_]. destruct Hq as (A & B & C & D & E). cbn in *. subst.
+    unfold quiet, fresh, reset_if_flight, close_plain, set_flight. cbn.
+    rewrite !conn_eqb_refl. cbn.
+    assert (Hrm : remove_conn c (olist cu) = olist cu).
+    { apply remove_conn_notin. intros Hin. specialize (E c Hin). subst c. cbn in E. lia. }
+    unfold remove_conn in Hrm. rewrite Hrm. repeat split; auto.
+    intros x Hx. specialize (E x Hx). cbn in E.
+    eapply Nat.lt_le_trans; [exact E|apply nth_bump_le].
+Qed.
+
+(* the implementation differs only in what a refused raw Connect does to the in-flight slot, which is
+   empty in a quiescent state: outside ODuring the two coincide *)
+Definition no_during (ops : list op) : Prop :=
+  Forall (fun o => match o with ODuring _ _ => False | _ => True end) ops.
+
+Lemma step_impl_eq_spec e o s :
+  quiet s -> match o with ODuring _ _ => False | _ => True end -> step false e o s = step true e o s.
+Proof.
+  intros Hq Ho. unfold step. destruct (alive s); cbn [negb]; [|reflexivity].
+  destruct o; try reflexivity; [|contradiction].
+  unfold connect_raw. destruct (check_server s t); [|reflexivity].
+  rewrite set_flight_none_id by apply Hq. reflexivity.
+Qed.
+
+(* ----- observations of quiescent states satisfy the property's state predicate ----- *)
+
+Lemma bools_eqb_refl l : bools_eqb l l = true.
+Proof. induction l as [|x l IH]; [reflexivity|]. cbn. rewrite IH. now destruct x. Qed.
+Lemma nats_eqb_refl l : nats_eqb l l = true.
+Proof. induction l as [|x l IH]; [reflexivity|]. cbn. now rewrite IH, Nat.eqb_refl. Qed.
+
+Lemma observe_state_ok n rs s : quiet s -> state_ok n (observe n rs s) = true.
+Proof.
+  intros (A & B & C & D & E). unfold state_ok, observe. cbn [o_lists o_open o_cur o_alive].
+  rewrite !map_length, seq_length, Nat.eqb_refl. cbn [andb].
+  rewrite B, C.
+  assert (H1 : map (fun x => existsb (Nat.eqb x) (map c_srv (olist (cur s)))) (seq 0 n)
+               = map (fun x => onat_is (option_map c_srv (cur s)) x) (seq 0 n)).
+  { apply map_ext. intros x. destruct (cur s) as [c|]; cbn; [|reflexivity].
+    rewrite orb_false_r. apply Nat.eqb_sym. }
+  assert (H2 : map (fun x => count_srv x (olist (cur s))) (seq 0 n)
+               = map (fun x => if onat_is (option_map c_srv (cur s)) x then 1 else 0) (seq 0 n)).
+  { apply map_ext. intros x. destruct (cur s) as [c|]; cbn; [|reflexivity].
+    unfold count_srv. cbn. destruct (c_srv c =? x); reflexivity. }
+  rewrite H1, H2, bools_eqb_refl, nats_eqb_refl. cbn [andb].
+  destruct (alive s) eqn:Ea; [reflexivity|]. rewrite (D eq_refl). reflexivity.
+Qed.
+
+Lemma run_ops_spec_ok e n : forall ops s,
+  quiet s -> Forall (fun o => state_ok n o = true) (run_ops true e n ops s).
+Proof.
+  induction ops as [|o r IH]; intros s Hq; [constructor|].
+  cbn [run_ops]. pose proof (step_spec_quiet e o s Hq) as H.
+  destruct (step true e o s) as [s1 rs]. cbn [fst] in H.
+  constructor; [apply observe_state_ok, H|apply IH, H].
+Qed.
+
+Theorem spec_histories_state_ok e n ops :
+  Forall (fun o => state_ok n o = true) (run true e n ops).
+Proof.
+  unfold run. constructor.
+  - apply observe_state_ok, login_quiet.
+  - apply run_ops_spec_ok, login_quiet.
+Qed.
+
+Lemma run_ops_impl_eq e n : forall ops s,
+  quiet s -> no_during ops -> run_ops false e n ops s = run_ops true e n ops s.
+Proof.
+  induction ops as [|o r IH]; intros s Hq Hn; [reflexivity|].
+  inversion Hn as [|? ? Ho Hr]; subst.
+  cbn [run_ops]. rewrite (step_impl_eq_spec e o s Hq Ho).
+  pose proof (step_spec_quiet e o s Hq) as H.
+  destruct (step true e o s) as [s1 rs]. cbn [fst] in H.
+  rewrite (IH s1 H Hr). reflexivity.
+Qed.
+
+Theorem impl_eq_spec_off_trigger e n ops :
+  no_during ops -> run false e n ops = run true e n ops.
+Proof.
+  intros H. unfold run. f_equal. apply run_ops_impl_eq; [apply login_quiet|exact H].
+Qed.
+
+Theorem impl_histories_state_ok e n ops :
+  no_during ops -> Forall (fun o => state_ok n o = true) (run false e n ops).
+Proof. intros H. rewrite impl_eq_spec_off_trigger by exact H. apply spec_histories_state_ok. Qed.
+
+(* refusals have no side effects in the specification ... *)
+Theorem spec_refusal_no_side_effect e t s r :
+  check_server s t = Some r ->
+  connect_raw true e t s = (s, r) /\ connect_ind e t s = (s, RFalse).
+Proof. intros H. unfold connect_raw, connect_ind. rewrite H. split; reflexivity. Qed.
+
+(* ... but not in the code (finding C16-2): the history observed on the real proxy *)
+Definition ex_env : env := mkEnv FamA [0] [[]; []; []; repeat BStall 8].
+Definition ex_ops : list op := [ODuring 3 [(false, 1); (false, 2)]].
+
+Theorem impl_refusal_side_effect_refuted :
+  map o_res (run false ex_env 4 ex_ops) = [[RNone]; [RInProgress; RSuccess; RErr]] /\
+  history_ok ex_env 4 ex_ops (run false ex_env 4 ex_ops) = false /\
+  map o_res (run true ex_env 4 ex_ops) = [[RNone]; [RInProgress; RInProgress; RErr]] /\
+  history_ok ex_env 4 ex_ops (run true ex_env 4 ex_ops) = true.
+Proof. vm_compute. repeat split; reflexivity. Qed.
+
+(* after a successful switch the player is on the destination (and, by quiet, the previous backend
+   connection is closed and the lists are updated) *)
+Theorem success_on_destination strict e t s :
+  quiet s -> alive s = true -> snd (connect_raw strict e t s) = RSuccess ->
+  quiet (fst (connect_raw strict e t s)) /\ srv_is (cur (fst (connect_raw strict e t s))) t = true.
+Proof. intros Hq Ha Hr. destruct (connect_raw_quiet strict e t s Hq Ha) as [A B]. auto. Qed.
+
+(* a failed attempt of a pre-1.20.2 client leaves the player on its previous server *)
+Theorem failed_attempt_keeps_previous e t s :
+  fam e = FamA -> quiet s -> alive s = true -> snd (attempt e t s) <> OutSuccess ->
+  cur (fst (attempt e t s)) = cur s /\ quiet (fst (attempt e t s)).
+Proof.
+  intros Hf Hq Ha Ho. destruct (attempt_cases e t s Hq Ha) as (A & _ & [(B & _)|(_ & _ & C)]).
+  - congruence.
+  - auto.
+Qed.
+
+(* the built-in recovery ends on the previous server, on a server of the try list, or with the player
+   disconnected - always in a consistent state *)
+Theorem recovery_lands e rs s :
+  pre_rec rs s ->
+  quiet (recover (fuel_of e) e rs s) /\ landed e rs s (recover (fuel_of e) e rs s).
+Proof. intros H. apply recover_quiet; [exact H|apply need_le_fuel]. Qed.
+
+(* ---------- C. concurrent requests: all schedules (Base/Conc.v) ---------- *)
+
+Definition idle_pc (n : nat) : Prop := n = 0 \/ n = 4.
+
+(* the shape of the shared state of the specification threads *)
+Inductive cinv (c : cst) : Prop :=
+| CIdle :
+    c_active c = [] ->
+    (forall j, idle_pc (l_pc (c_loc c j))) ->
+    flight (c_st c) = None ->
+    opened (c_st c) = olist (cur (c_st c)) ->
+    lists (c_st c) = map c_srv (olist (cur (c_st c))) ->
+    fresh (c_st c) ->
+    cinv c
+| CFlight (k : nat) (cn : conn) :
+    c_active c = [k] ->
+    l_pc (c_loc c k) = 2 -> l_conn (c_loc c k) = Some cn ->
+    (forall j, j <> k -> idle_pc (l_pc (c_loc c j))) ->
+    flight (c_st c) = Some cn ->
+    opened (c_st c) = cn :: olist (cur (c_st c)) ->
+    lists (c_st c) = map c_srv (olist (cur (c_st c))) ->
+    ~ In cn (olist (cur (c_st c))) ->
+    fresh (c_st c) ->
+    cinv c
+| CJoin (k : nat) (cn : conn) (ex : option conn) :
+    c_active c = [k] ->
+    l_pc (c_loc c k) = 3 -> l_conn (c_loc c k) = Some cn -> l_existing (c_loc c k) = ex ->
+    (forall j, j <> k -> idle_pc (l_pc (c_loc c j))) ->
+    flight (c_st c) = Some cn -> cur (c_st c) = None ->
+    opened (c_st c) = cn :: olist ex ->
+    lists (c_st c) = map c_srv (olist ex) ->
+    ~ In cn (olist ex) ->
+    fresh (c_st c) ->
+    cinv c.
+
+Lemma upd_same k x f : upd k x f k = x.
+Proof. unfold upd. now rewrite Nat.eqb_refl. Qed.
+Lemma upd_other k x f j : j <> k -> upd k x f j = f j.
+Proof. unfold upd. intros H. destruct (Nat.eqb_spec j k); [contradiction|reflexivity]. Qed.
+
+Lemma idle_not_2 n : idle_pc n -> n <> 2 /\ n <> 3.
+Proof. intros [->| ->]; split; discriminate. Qed.
+
+Lemma fresh_open t s :
+  fresh s ->
+  let c := mkConn t (nth t (attempts s) 0) in
+  fresh (fst (open_conn t s)) /\ ~ In c (opened s).
+Proof.
+  intros Hf. cbn. split.
+  - intros x [<-|Hx]; cbn.
+    + rewrite nth_bump_same. lia.
+    + eapply Nat.lt_le_trans; [apply Hf, Hx|apply nth_bump_le].
+  - intros Hin. specialize (Hf _ Hin). cbn in Hf. lia.
+Qed.
+
+Lemma check_set_preserves k t c : cinv c -> cinv (fst (a_check_set k t c)).
+Proof.
+  intros Hc. unfold a_check_set.
+  destruct (Nat.eqb_spec (l_pc (c_loc c k)) 0) as [Hpc|Hpc]; [|exact Hc].
+  destruct Hc as [Ha Hidle Hfl Hop Hli Hfr | k' cn Ha Hp Hcn Hidle Hfl Hop Hli Hnin Hfr
+                 | k' cn ex Ha Hp Hcn Hex Hidle Hfl Hcur Hop Hli Hnin Hfr].
+  - destruct (check_server (c_st c) t) as [r|] eqn:Ec; cbn [fst].
+    + apply CIdle; cbn [c_active c_loc c_st]; auto.
+      intros j. destruct (Nat.eq_dec j k) as [->|Hj]; [rewrite upd_same; right; reflexivity|].
+      rewrite upd_other by assumption. apply Hidle.
+    + destruct (fresh_open t (c_st c) Hfr) as [Hfr' Hnew].
+      unfold open_conn in *. cbn [fst] in *.
+      set (cn := mkConn t (nth t (attempts (c_st c)) 0)) in *.
+      apply (CFlight _ k cn); cbn [c_active c_loc c_st set_flight cur flight lists opened attempts];
+        auto.
+      * now rewrite Ha.
+      * now rewrite upd_same.
+      * now rewrite upd_same.
+      * intros j Hj. rewrite upd_other by assumption. apply Hidle.
+      * now rewrite Hop.
+      * now rewrite <- Hop.
+  - assert (Hk : k <> k') by (intros ->; congruence).
+    unfold check_server. rewrite Hfl. cbn [fst].
+    apply (CFlight _ k' cn); cbn [c_active c_loc c_st]; auto.
+    + now rewrite upd_other by auto.
+    + now rewrite upd_other by auto.
+    + intros j Hj. destruct (Nat.eq_dec j k) as [->|Hjk]; [rewrite upd_same; right; reflexivity|].
+      rewrite upd_other by assumption. apply Hidle, Hj.
+  - assert (Hk : k <> k') by (intros ->; congruence).
+    unfold check_server. rewrite Hfl. cbn [fst].
+    apply (CJoin _ k' cn ex); cbn [c_active c_loc c_st]; auto.
+    + now rewrite upd_other by auto.
+    + now rewrite upd_other by auto.
+    + now rewrite upd_other by auto.
+    + intros j Hj. destruct (Nat.eq_dec j k) as [->|Hjk]; [rewrite upd_same; right; reflexivity|].
+      rewrite upd_other by assumption. apply Hidle, Hj.
+Qed.
+
+Lemma join1_preserves k c : cinv c -> cinv (fst (a_join1 k c)).
+Proof.
+  intros Hc. unfold a_join1.
+  destruct (Nat.eqb_spec (l_pc (c_loc c k)) 2) as [Hpc|Hpc]; [|exact Hc].
+  destruct Hc as [Ha Hidle Hfl Hop Hli Hfr | k' cn Ha Hp Hcn Hidle Hfl Hop Hli Hnin Hfr
+                 | k' cn ex Ha Hp Hcn Hex Hidle Hfl Hcur Hop Hli Hnin Hfr].
+  - exfalso. destruct (idle_not_2 _ (Hidle k)). congruence.
+  - destruct (Nat.eq_dec k k') as [->|Hk].
+    + cbn [fst]. apply (CJoin _ k' cn (cur (c_st c)));
+        cbn [c_active c_loc c_st set_cur cur flight lists opened attempts]; auto.
+      * now rewrite upd_same.
+      * now rewrite upd_same.
+      * now rewrite upd_same.
+      * intros j Hj. rewrite upd_other by assumption. apply Hidle, Hj.
+    + exfalso. destruct (idle_not_2 _ (Hidle k Hk)). congruence.
+  - destruct (Nat.eq_dec k k') as [->|Hk]; [congruence|].
+    exfalso. destruct (idle_not_2 _ (Hidle k Hk)). congruence.
+Qed.
+
+Lemma join2_preserves k c : cinv c -> cinv (fst (a_join2 k c)).
+Proof.
+  intros Hc. unfold a_join2.
+  destruct (Nat.eqb_spec (l_pc (c_loc c k)) 3) as [Hpc|Hpc]; [|exact Hc].
+  destruct Hc as [Ha Hidle Hfl Hop Hli Hfr | k' cn Ha Hp Hcn Hidle Hfl Hop Hli Hnin Hfr
+                 | k' cn ex Ha Hp Hcn Hex Hidle Hfl Hcur Hop Hli Hnin Hfr].
+  - exfalso. destruct (idle_not_2 _ (Hidle k)). congruence.
+  - destruct (Nat.eq_dec k k') as [->|Hk]; [congruence|].
+    exfalso. destruct (idle_not_2 _ (Hidle k Hk)). congruence.
+  - destruct (Nat.eq_dec k k') as [->|Hk].
+    2:{ exfalso. destruct (idle_not_2 _ (Hidle k Hk)). congruence. }
+    rewrite Hcn, Hex. cbn [fst].
+    destruct (c_st c) as [cu fl li op ti al at_] eqn:Es. cbn in Hfl, Hcur, Hop, Hli. subst cu fl op li.
+    assert (Hfin : join_finish cn ex (mkSt None (Some cn) (map c_srv (olist ex)) (cn :: olist ex) ti al at_)
+                   = mkSt (Some cn) None [c_srv cn] [cn] 0 al at_).
+    { unfold join_finish. destruct ex as [x|]; cbn [olist map] in *.
+      - unfold close_joined. cbn [cur flight lists opened tryi alive attempts c_srv].
+        rewrite remove_nat_single.
+        assert (Hne : conn_eqb cn x = false) by (apply conn_eqb_neq; intros ->; apply Hnin; now left).
+        unfold remove_conn. cbn [filter]. rewrite Hne, conn_eqb_refl. cbn.
+        now rewrite conn_eqb_refl.
+      - cbn. now rewrite conn_eqb_refl. }
+    rewrite Hfin.
+    apply CIdle; cbn [c_active c_loc c_st cur flight lists opened olist map]; auto.
+    + rewrite Ha. cbn. now rewrite Nat.eqb_refl.
+    + intros j. destruct (Nat.eq_dec j k') as [->|Hj]; [rewrite upd_same; right; reflexivity|].
+      rewrite upd_other by assumption. apply Hidle, Hj.
+    + intros x [<-|[]]. cbn. apply (Hfr cn). cbn. now left.
+Qed.
+
+Lemma spec_actions k0 ts a :
+  In a (concat (requests spec_request k0 ts)) ->
+  exists k t, a = a_check_set k t \/ a = a_join1 k \/ a = a_join2 k.
+Proof.
+  revert k0. induction ts as [|t r IH]; intros k0 H; [destruct H|].
+  cbn in H. destruct H as [<-|[<-|[<-|H]]].
+  - exists k0, t. auto.
+  - exists k0, t. auto.
+  - exists k0, t. auto.
+  - apply (IH (S k0)). exact H.
+Qed.
+
+(* for every number of concurrent requests, every target list and every schedule *)
+Theorem spec_invariant_all_schedules ts sched c0 :
+  cinv c0 ->
+  cinv (fst (fst (Conc.run (requests spec_request 0 ts) sched c0))).
+Proof.
+  apply (inv_all_schedules cinv).
+  intros a Ha s Hs. destruct (spec_actions _ _ _ Ha) as (k & t & [->|[->| ->]]).
+  - now apply check_set_preserves.
+  - now apply join1_preserves.
+  - now apply join2_preserves.
+Qed.
+
+Lemma cinv_start : cinv start_cst.
+Proof.
+  apply CIdle; cbn; auto.
+  - intros j. now left.
+  - intros c [<-|[]]. cbn. lia.
+Qed.
+
+(* consequences of the invariant *)
+Lemma cinv_one_in_flight c : cinv c -> length (c_active c) <= 1.
+Proof. intros [Ha | k cn Ha | k cn ex Ha]; rewrite Ha; cbn; lia. Qed.
+
+Lemma cinv_lists c : cinv c -> length (lists (c_st c)) <= 1 /\ length (opened (c_st c)) <= 2.
+Proof.
+  intros [Ha _ _ Hop Hli _ | k cn _ _ _ _ _ Hop Hli _ _ | k cn ex _ _ _ _ _ _ _ Hop Hli _ _];
+    rewrite Hop, Hli; try destruct (cur (c_st c)); try destruct ex; cbn; lia.
+Qed.
+
+Lemma cinv_quiescent c :
+  cinv c -> c_active c = [] ->
+  flight (c_st c) = None /\ opened (c_st c) = olist (cur (c_st c)) /\
+  lists (c_st c) = map c_srv (olist (cur (c_st c))).
+Proof.
+  intros Hc Hz. destruct Hc as [Ha Hidle Hfl Hop Hli _ | k cn Ha | k cn ex Ha];
+    try (rewrite Ha in Hz; discriminate). auto.
+Qed.
+
+(* ----- the implementation: refuted by schedule ----- *)
+
+Definition proj (r : cst * list (nat * res) * list (@thread cst (nat * res))) :=
+  let c := fst (fst r) in
+  (c_active c, option_map c_srv (cur (c_st c)), lists (c_st c), map c_srv (opened (c_st c)), snd (fst r)).
+
+(* two requests pass checkServer before either sets the slot: two attempts in flight *)
+Theorem impl_two_in_flight_refuted :
+  proj (Conc.run [impl_request 0 1; impl_request 1 2] [0; 0; 1; 1; 0; 1] start_cst)
+  = ([1; 0], Some 0, [0], [2; 1; 0], []).
+Proof. vm_compute. reflexivity. Qed.
+
+(* ... and, run to completion, two live backend connections, the player in two lists, two Success *)
+Theorem impl_two_live_refuted :
+  proj (Conc.run [impl_request 0 1; impl_request 1 2] [0; 0; 1; 1; 0; 1; 0; 1; 0; 1; 0; 1] start_cst)
+  = ([], Some 2, [2; 1], [2; 1], [(0, RSuccess); (1, RSuccess)]).
+Proof. vm_compute. reflexivity. Qed.
+
+(* a refused request clears the slot of the running one: the third request is admitted *)
+Theorem impl_refusal_admits_next_refuted :
+  proj (Conc.run [impl_request 0 1; impl_request 1 2; impl_request 2 2]
+            [0; 0; 0; 1; 1; 1; 1; 2; 2; 2] start_cst)
+  = ([2; 0], Some 0, [0], [2; 1; 0], [(1, RInProgress)]).
+Proof. vm_compute. reflexivity. Qed.
+
+(* the same schedules cannot hurt the specification (instances of the general theorem) *)
+Example spec_same_schedule :
+  proj (Conc.run [spec_request 0 1; spec_request 1 2] [0; 1; 0; 1; 0; 1] start_cst)
+  = ([], Some 1, [1], [1], [(1, RInProgress); (0, RSuccess)]).
+Proof. vm_compute. reflexivity. Qed.
+
+(* ---------- D. the specification satisfies the whole property predicate on every history ---------- *)
+
+Lemma onat_eqb_refl o : onat_eqb o o = true.
+Proof. destruct o; cbn; [apply Nat.eqb_refl|reflexivity]. Qed.
+
+Lemma same_state_obs n r r' s s' :
+  quiet s -> quiet s' -> cur s = cur s' -> alive s = alive s' ->
+  same_state (observe n r s) (observe n r' s') = true.
+Proof.
+  intros (_ & B & C & _) (_ & B' & C' & _) Hc Ha.
+  unfold same_state, observe. cbn [o_cur o_lists o_open o_alive].
+  rewrite B, C, B', C', Hc, Ha, onat_eqb_refl, bools_eqb_refl, nats_eqb_refl.
+  now destruct (alive s').
+Qed.
+
+Lemma in_try_of e c : In (c_srv c) (try_list e) -> in_try e (Some (c_srv c)) = true.
+Proof. intros H. cbn. apply existsb_exists. exists (c_srv c). split; [exact H|apply Nat.eqb_refl]. Qed.
+
+Definition after_fail (e : env) (s s' : st) : Prop :=
+  (cur s' = cur s /\ alive s' = alive s /\ cur s <> None) \/
+  alive s' = false \/
+  (alive s' = true /\ exists c, cur s' = Some c /\ In (c_srv c) (try_list e)).
+
+Lemma connect_ind_ok e t s :
+  quiet s -> alive s = true ->
+  quiet (fst (connect_ind e t s)) /\
+  ((snd (connect_ind e t s) = RTrue /\ srv_is (cur (fst (connect_ind e t s))) t = true) \/
+   (snd (connect_ind e t s) = RFalse /\ after_fail e s (fst (connect_ind e t s)))).
+Proof.
+  intros Hq Hal. split; [now apply connect_ind_quiet|]. unfold connect_ind.
+  destruct (check_server s t) as [r|] eqn:Ec.
+  { right. split; [reflexivity|]. left. split; [reflexivity|]. split; [reflexivity|].
+    unfold check_server in Ec. destruct Hq as (Hf & _). rewrite Hf in Ec.
+    destruct (cur s); [discriminate|discriminate]. }
+  pose proof (attempt_cases e t s Hq Hal) as H.
+  destruct (attempt e t s) as [s1 o]. cbn [fst snd] in *.
+  destruct H as (Hq1 & Hal1 & [(-> & c & Hc & Hct) | (Ho & Hcur & _)]).
+  { left. split; [reflexivity|]. cbn [fst]. rewrite Hc. cbn. subst t. apply Nat.eqb_refl. }
+  assert (Hpre : pre_rec t s1).
+  { pose proof Hq1 as (A & B & C & D & E).
+    split; [exact A|]. split; [exact E|]. split; [congruence|].
+    destruct (cur s1) as [c|] eqn:Ec1.
+    - left. split; [exact Hq1|]. split; [|discriminate].
+      destruct Hcur as [H|H]; [|discriminate].
+      pose proof (check_none_not_cur s t Ec) as Hn. rewrite <- H in Hn. exact Hn.
+    - right. cbn in B, C. auto. }
+  pose proof (recover_quiet e (fuel_of e) t s1 Hpre (need_le_fuel e t s1)) as (_ & Hl).
+  right. split; [destruct o; [congruence|reflexivity|reflexivity]|].
+  assert (Hgoal : after_fail e s (recover (fuel_of e) e t s1)).
+  { destruct Hl as [H|[H|(H1 & H2 & _)]].
+    - right. left. exact H.
+    - right. right. exact H.
+    - left. rewrite H1.
+      assert (Hcs : cur s1 = cur s) by (destruct Hcur as [H|H]; [exact H|congruence]).
+      split; [exact Hcs|]. split; [congruence|congruence]. }
+  destruct o; [congruence|exact Hgoal|exact Hgoal].
+Qed.
+
+Lemma after_fail_obs e n r r' s s' :
+  quiet s -> quiet s' -> after_fail e s s' ->
+  same_state (observe n r s) (observe n r' s') || in_try e (o_cur (observe n r' s'))
+  || negb (o_alive (observe n r' s')) = true.
+Proof.
+  intros Hq Hq' [(Hc & Ha & _)|[Ha|(Ha & c & Hc & Hin)]].
+  - rewrite (same_state_obs n r r' s s' Hq Hq') by congruence. reflexivity.
+  - cbn [observe o_alive]. rewrite Ha. cbn. now rewrite !orb_true_r.
+  - cbn [observe o_cur]. rewrite Hc. cbn [option_map]. rewrite (in_try_of e c Hin).
+    now rewrite orb_true_r.
+Qed.
+
+Lemma check_some_quiet s t r :
+  quiet s -> check_server s t = Some r -> r = RAlready /\ srv_is (cur s) t = true.
+Proof.
+  intros (Hf & _) H. unfold check_server in H. rewrite Hf in H.
+  destruct (cur s) as [c|]; [|discriminate]. cbn.
+  destruct (c_srv c =? t); [|discriminate]. inversion H. auto.
+Qed.
+
+Lemma onat_is_map o x : onat_is (option_map c_srv o) x = srv_is o x.
+Proof. destruct o; reflexivity. Qed.
+
+Lemma ress_eqb_refl l : ress_eqb l l = true.
+Proof. induction l as [|x l IH]; [reflexivity|]. cbn. rewrite IH. now destruct x. Qed.
+
+(* one operation of the specification: quiescent again, and the operation's own clause holds *)
+Lemma step_spec_ok e n o s r0 :
+  quiet s ->
+  quiet (fst (step true e o s)) /\
+  op_ok e o (observe n r0 s) (observe n (snd (step true e o s)) (fst (step true e o s))) = true.
+Proof.
+  intros Hq. split; [now apply step_spec_quiet|].
+  unfold step. destruct (alive s) eqn:Hal; cbn [negb].
+  2:{ (* player gone: skipped *)
+    cbn [fst snd].
+    pose proof (same_state_obs n r0 [RSkipped] s s Hq Hq eq_refl eq_refl) as Hs.
+    assert (Hb : o_alive (observe n r0 s) = false) by exact Hal.
+    assert (Hr : o_res (observe n [RSkipped] s) = [RSkipped]) by reflexivity.
+    set (b := observe n r0 s) in *. set (a := observe n [RSkipped] s) in *.
+    destruct o; cbn [op_ok]; rewrite Hr, ?Hb, Hs; cbn; try reflexivity.
+    now rewrite orb_true_r. }
+  destruct o as [t|t| | |z inner].
+  - (* Connect *)
+    unfold connect_raw. destruct (check_server s t) as [r|] eqn:Ec.
+    + destruct (check_some_quiet s t r Hq Ec) as [-> Hsrv]. cbn [fst snd].
+      pose proof (same_state_obs n r0 [RAlready] s s Hq Hq eq_refl eq_refl) as Hs.
+      assert (Hr : o_res (observe n [RAlready] s) = [RAlready]) by reflexivity.
+      assert (Hc : onat_is (o_cur (observe n r0 s)) t = true) by (rewrite <- Hsrv; apply onat_is_map).
+      set (b := observe n r0 s) in *. set (a := observe n [RAlready] s) in *.
+      cbn [op_ok]. rewrite Hr, Hc, Hs. reflexivity.
+    + pose proof (attempt_cases e t s Hq Hal) as H.
+      destruct (attempt e t s) as [s1 oc]. cbn [fst snd] in *.
+      destruct H as (Hq1 & Hal1 & [(-> & c & Hc & Hct) | (Ho & Hcur & HfamA)]).
+      * cbn [res_of op_ok observe o_res o_cur]. rewrite Hc. cbn. subst t. apply Nat.eqb_refl.
+      * assert (Hgoal :
+          same_state (observe n r0 s) (observe n [res_of oc] s1)
+          || (match fam e with FamB => true | FamA => false end &&
+              match o_cur (observe n [res_of oc] s1) with None => o_alive (observe n [res_of oc] s1) | Some _ => false end) = true).
+        { destruct Hcur as [Hsame|Hnone].
+          - rewrite (same_state_obs n r0 [res_of oc] s s1 Hq Hq1) by congruence. reflexivity.
+          - destruct (fam e) eqn:Ef.
+            + rewrite (same_state_obs n r0 [res_of oc] s s1 Hq Hq1) by (try apply eq_sym, HfamA; congruence).
+              reflexivity.
+            + cbn [observe o_cur o_alive]. rewrite Hnone. cbn [option_map]. rewrite Hal1, Hal.
+              now rewrite orb_true_r. }
+        destruct oc; [congruence| |]; cbn [res_of op_ok o_res]; cbn [observe o_res]; exact Hgoal.
+  - (* ConnectWithIndication *)
+    pose proof (connect_ind_ok e t s Hq Hal) as (Hq1 & H).
+    destruct (connect_ind e t s) as [s1 r]. cbn [fst snd] in *.
+    destruct H as [(-> & Hon) | (-> & Haf)].
+    + cbn [op_ok observe o_res o_cur]. destruct (cur s1) as [c|]; [exact Hon|discriminate].
+    + cbn [op_ok]. cbn [observe o_res]. apply (after_fail_obs e n r0 [RFalse] s s1 Hq Hq1 Haf).
+  - (* kick *)
+    destruct (cur s) as [c|] eqn:Ec.
+    + cbn [fst snd].
+      assert (Hpre : pre_rec (c_srv c) (close_joined c s)).
+      { destruct s as [cu fl li op ti al at_]. destruct Hq as (A & B & C & D & E). cbn in *. subst.
+        unfold pre_rec, close_joined, fresh. cbn [cur flight lists opened tryi alive attempts olist map].
+        rewrite remove_conn_single, remove_nat_single.
+        split; [reflexivity|]. split; [intros x []|]. split; [reflexivity|].
+        right. split; [reflexivity|]. split; [reflexivity|]. right. cbn. apply Nat.eqb_refl. }
+      pose proof (recover_quiet e (fuel_of e) _ _ Hpre (need_le_fuel e _ _)) as (Hq1 & Hl).
+      set (s' := recover (fuel_of e) e (c_srv c) (close_joined c s)) in *.
+      change (in_try e (option_map c_srv (cur s')) || negb (alive s') = true).
+      destruct Hl as [H|[(Ha & c' & Hc' & Hin)|(_ & _ & Hno)]].
+      * rewrite H. now rewrite orb_true_r.
+      * rewrite Hc'. cbn [option_map]. now rewrite (in_try_of e c' Hin).
+      * exfalso. destruct s; cbn in *. subst. cbn in Hno. rewrite Nat.eqb_refl in Hno. discriminate.
+    + cbn [fst snd op_ok observe o_res].
+      pose proof (same_state_obs n r0 [RSkipped] s s Hq Hq eq_refl eq_refl) as Hs. exact Hs.
+  - (* drop: the same reaction *)
+    destruct (cur s) as [c|] eqn:Ec.
+    + cbn [fst snd].
+      assert (Hpre : pre_rec (c_srv c) (close_joined c s)).
+      { destruct s as [cu fl li op ti al at_]. destruct Hq as (A & B & C & D & E). cbn in *. subst.
+        unfold pre_rec, close_joined, fresh. cbn [cur flight lists opened tryi alive attempts olist map].
+        rewrite remove_conn_single, remove_nat_single.
+        split; [reflexivity|]. split; [intros x []|]. split; [reflexivity|].
+        right. split; [reflexivity|]. split; [reflexivity|]. right. cbn. apply Nat.eqb_refl. }
+      pose proof (recover_quiet e (fuel_of e) _ _ Hpre (need_le_fuel e _ _)) as (Hq1 & Hl).
+      set (s' := recover (fuel_of e) e (c_srv c) (close_joined c s)) in *.
+      change (in_try e (option_map c_srv (cur s')) || negb (alive s') = true).
+      destruct Hl as [H|[(Ha & c' & Hc' & Hin)|(_ & _ & Hno)]].
+      * rewrite H. now rewrite orb_true_r.
+      * rewrite Hc'. cbn [option_map]. now rewrite (in_try_of e c' Hin).
+      * exfalso. destruct s; cbn in *. subst. cbn in Hno. rewrite Nat.eqb_refl in Hno. discriminate.
+    + cbn [fst snd op_ok observe o_res].
+      pose proof (same_state_obs n r0 [RSkipped] s s Hq Hq eq_refl eq_refl) as Hs. exact Hs.
+  - (* requests issued while another one is in flight *)
+    pose proof (step_spec_quiet e (ODuring z inner) s Hq) as Hq1.
+    unfold step in Hq1. rewrite Hal in Hq1. cbn [negb] in Hq1.
+    destruct (check_server s z) as [r|] eqn:Ec.
+    + destruct (check_some_quiet s z r Hq Ec) as [-> Hsrv]. cbn [fst snd].
+      pose proof (same_state_obs n r0 [RAlready] s s Hq Hq eq_refl eq_refl) as Hs.
+      assert (Hr : o_res (observe n [RAlready] s) = [RAlready]) by reflexivity.
+      assert (Hc : onat_is (o_cur (observe n r0 s)) z = true) by (rewrite <- Hsrv; apply onat_is_map).
+      set (b := observe n r0 s) in *. set (a := observe n [RAlready] s) in *.
+      cbn [op_ok]. rewrite Hr, Hc, Hs. cbn. now rewrite orb_true_r.
+    + unfold open_conn in *.
+      set (c := mkConn z (nth z (attempts s) 0)) in *.
+      set (s1 := mkSt _ _ _ _ _ _ _) in *.
+      rewrite (run_inner_refused e c inner (set_flight (Some c) s1) eq_refl) in *.
+      cbn [fst snd] in *. cbn [op_ok observe o_res].
+      rewrite ress_eqb_refl. cbn [andb].
+      rewrite (same_state_obs n r0 _ s _ Hq Hq1); [reflexivity| |].
+      * unfold reset_if_flight, close_plain, set_flight. cbn. rewrite conn_eqb_refl. reflexivity.
+      * unfold reset_if_flight, close_plain, set_flight. cbn. rewrite conn_eqb_refl. reflexivity.
+Qed.
+
+Lemma run_ops_spec_history_ok e n : forall ops s r0,
+  quiet s -> ops_ok e n ops (observe n r0 s) (run_ops true e n ops s) = true.
+Proof.
+  induction ops as [|o r IH]; intros s r0 Hq; [reflexivity|].
+  cbn [run_ops]. pose proof (step_spec_ok e n o s r0 Hq) as (Hq1 & Hok).
+  destruct (step true e o s) as [s1 rs]. cbn [fst snd] in *.
+  cbn [ops_ok]. rewrite (observe_state_ok n rs s1 Hq1), Hok. cbn [andb]. apply IH, Hq1.
+Qed.
+
+Lemma login_ok e : in_try e (option_map c_srv (cur (login e init_st))) || negb (alive (login e init_st)) = true.
+Proof.
+  unfold login.
+  destruct (next_server_to_try e init_st None) as [s1 [t|]] eqn:En.
+  - destruct (next_spec _ _ _ _ _ En) as (i & -> & _ & Hnth & _).
+    assert (Hq : quiet (set_tryi i init_st)).
+    { unfold quiet, fresh. cbn. repeat split; auto; try (intros c []). }
+    pose proof (connect_ind_ok e t (set_tryi i init_st) Hq eq_refl) as (_ & H).
+    destruct (connect_ind e t (set_tryi i init_st)) as [s2 r]. cbn [fst snd] in *.
+    destruct H as [(_ & Hon) | (_ & [(_ & _ & Hne)|[Ha|(Ha & c & Hc & Hin)]])].
+    + destruct (cur s2) as [c|]; [|discriminate]. cbn in Hon. apply Nat.eqb_eq in Hon.
+      cbn [option_map]. rewrite Hon.
+      assert (Hin : In t (try_list e)) by (eapply nth_error_In; eassumption).
+      apply orb_true_iff. left. apply existsb_exists. exists t. split; [exact Hin|apply Nat.eqb_refl].
+    + exfalso. apply Hne. reflexivity.
+    + rewrite Ha. now rewrite orb_true_r.
+    + rewrite Hc. cbn [option_map]. now rewrite (in_try_of e c Hin).
+  - apply next_none in En. subst s1. cbn. reflexivity.
+Qed.
+
+(* the specification model satisfies the property's whole predicate on every history: every client
+   family, every try list, every backend script (fault sequence), every operation list *)
+Theorem spec_history_ok e n ops : history_ok e n ops (run true e n ops) = true.
+Proof.
+  unfold run, history_ok.
+  rewrite (observe_state_ok n [RNone] _ (login_quiet e)). cbn [andb].
+  cbn [observe o_cur o_alive]. rewrite login_ok. cbn [andb].
+  apply (run_ops_spec_history_ok e n ops _ [RNone] (login_quiet e)).
 Qed.
